@@ -4,6 +4,14 @@ use std::{vec, vec::Vec};
 use super::*;
 use crate::__verif_support::*;
 
+/// accessor for harnesses in other modules (dirichlet): (a, b, switched_params)
+pub(crate) fn beta_params<F: Float>(b: &Beta<F>) -> (F, F, bool)
+where
+    Open01: Distribution<F>,
+{
+    (b.a, b.b, b.switched_params)
+}
+
 macro_rules! c04_beta {
     ($name:ident, $f:ty) => {
         vproof! {
@@ -87,8 +95,8 @@ macro_rules! c03_beta {
 }
 //@ id: c03_beta_f64
 //@ prop: C03
-//@ tier: quick
-//@ cap: 1800
+//@ tier: thorough
+//@ cap: 3600
 //@ funcs: Beta::<f64>::new; Beta::<f64>::sample (Cheng BB and BC trial, w == inf guard, reflection)
 //@ bounds: alpha, beta in [1e-3, 1e4]; first trial (2 words)
 //@ assumes: libm::{log,exp,sqrt} by contract
